@@ -105,18 +105,19 @@ Proof. vm_compute. auto. Qed.
 
 (* ---------- across invocations ---------- *)
 
-(* [wsim dm fs1 ov1 fs2 ov2]: every (canonical) name is the same thing in both worlds - same lines, same
+(* [wsim K dm fs1 ov1 fs2 ov2]: every (canonical) name of the class K - [allK] = all names, and then [fpK K fp] holds
+   for every file patch - is the same thing in both worlds - same lines, same
    existence, same effective mode - whether that comes from the overlay or from the disk.  If the tree fs2 reads
    as (fs, ov) - the overlay [ov] of the patches applied so far having been saved - then pushing the remaining
    series from scratch on fs2 and continuing in memory on (fs, ov) stop at the same patch, with the same rejects,
    in similar states. *)
 Theorem C09_fresh_invocation_equals_continuation :
-  forall dm cfg db fs ov applied fs2 lo,
-    wsim dm fs ov fs2 [] -> (forall s, In s applied -> (st_index s < lo)%nat) ->
+  forall K dm cfg db fs ov applied fs2 lo,
+    (forall fp, fpK K fp) -> wsim K dm fs ov fs2 [] -> (forall s, In s applied -> (st_index s < lo)%nat) ->
     forall series index, (lo <= index)%nat ->
     fst (apply_series cfg db {| a_applied := applied; a_files := ov |} index series fs) = fs /\
     fst (apply_series cfg db {| a_applied := []; a_files := [] |} index series fs2) = fs2 /\
-    ressim (sersim dm fs fs2 applied [])
+    ressim (sersim K dm fs fs2 applied [])
            (snd (apply_series cfg db {| a_applied := applied; a_files := ov |} index series fs))
            (snd (apply_series cfg db {| a_applied := []; a_files := [] |} index series fs2)).
 Proof. exact continue_equals_fresh. Qed.
@@ -124,11 +125,12 @@ Print Assumptions C09_fresh_invocation_equals_continuation.
 
 (* the general form: any two similar worlds, any stacks whose older parts lie below the patches pushed now *)
 Theorem C09_similar_worlds_same_push :
-  forall dm cfg db fs1 fs2 base1 base2 lo,
+  forall K dm cfg db fs1 fs2 base1 base2 lo,
+    (forall fp, fpK K fp) ->
     (forall s, In s base1 -> (st_index s < lo)%nat) -> (forall s, In s base2 -> (st_index s < lo)%nat) ->
-    forall series st1 st2 index, (lo <= index)%nat -> extsim dm fs1 fs2 base1 base2 st1 st2 ->
+    forall series st1 st2 index, (lo <= index)%nat -> extsim K dm fs1 fs2 base1 base2 st1 st2 ->
     fst (apply_series cfg db st1 index series fs1) = fs1 /\ fst (apply_series cfg db st2 index series fs2) = fs2 /\
-    ressim (sersim dm fs1 fs2 base1 base2) (snd (apply_series cfg db st1 index series fs1))
+    ressim (sersim K dm fs1 fs2 base1 base2) (snd (apply_series cfg db st1 index series fs1))
                                           (snd (apply_series cfg db st2 index series fs2)).
 Proof. exact apply_series_sim. Qed.
 Print Assumptions C09_similar_worlds_same_push.
@@ -136,15 +138,19 @@ Print Assumptions C09_similar_worlds_same_push.
 (* the hypothesis is met, e.g., by an overlay that only caches what is on disk, and by the saved tree when it
    reads as the overlay, name by name *)
 Theorem C09_similar_when_tree_reads_as_overlay :
-  forall dm fs ov fs2,
-    (forall k m, canon k = k -> ov_get k ov = Some m ->
+  forall K dm fs ov fs2,
+    (forall k m, okkey K k -> ov_get k ov = Some m ->
        ressim (msim bytes (effm dm)) (ROk m) (look fs2 [] k) /\ ROk (negb (deleted m)) = present fs2 [] k) ->
-    (forall k, canon k = k -> ov_get k ov = None -> look fs2 [] k = look fs [] k /\ present fs2 [] k = present fs [] k) ->
-    wsim dm fs ov fs2 [].
+    (forall k, okkey K k -> ov_get k ov = None -> look fs2 [] k = look fs [] k /\ present fs2 [] k = present fs [] k) ->
+    wsim K dm fs ov fs2 [].
 Proof. exact reload_wsim. Qed.
 Print Assumptions C09_similar_when_tree_reads_as_overlay.
 
 Theorem C09_cached_loads_are_invisible :
-  forall dm fs ov k m, ov_get k ov = None -> look fs ov k = ROk m -> wsim dm fs (ov_set k m ov) fs ov.
+  forall K dm fs ov k m, ov_get k ov = None -> look fs ov k = ROk m -> wsim K dm fs (ov_set k m ov) fs ov.
 Proof. exact wsim_cached. Qed.
 Print Assumptions C09_cached_loads_are_invisible.
+
+(* with all names looked at, the side condition on the file patches is void *)
+Example C09_all_names : forall fp, fpK allK fp.
+Proof. intros fp. split; intros; exact I. Qed.
